@@ -778,7 +778,7 @@ mutual
     trivia (a comment in front of it) and every item's trailing trivia ends with a comment.
     (`cex_block_comment_after_opener`: `{ /* c */ a = 1; }` comes out as `{   /* c */⏎a = 1; }`.)
     The second half always holds for what `fromCst` builds (nothing in a one-line container can
-    produce a layout marker); it is kept as a hypothesis to keep the parse-side proof short. -/
+    produce a layout marker: `Lemmas/FragFlat.lean`), so the theorem's exclusion is the first. -/
 def Expr.inlineClean : Expr → Prop
   | .leaf .. => True
   | .list v ml _ _ _ => (ml = false → allFlat v) ∧ allInlineClean v
